@@ -47,6 +47,8 @@ func knownListed(id string) bool {
 
 type cpEntry struct{ from, to string }
 
+var oracleW *hx.Writer // set by splunkCopyStreams: configurations are built on the generator side only
+
 func keyLiteral(k string) []byte {
 	return append(append([]byte{'"'}, escOracle(k)...), '"')
 }
@@ -57,7 +59,11 @@ func splunkCfgSx(es []cpEntry) hx.Sx {
 	for _, e := range es {
 		var to []hx.Sx
 		for _, seg := range fdcfg.ParseFieldSelector(e.to) {
-			to = append(to, hx.L(hx.S(seg), hx.B(keyLiteral(seg))))
+			lit := keyLiteral(seg)
+			if oracleW != nil {
+				oracleW.Oracle("esc_safe: the literal of a copy_fields target key is a JSON string (encoding/json.Valid) — hypothesis cp_lits_ok", json.Valid(lit), string(lit))
+			}
+			to = append(to, hx.L(hx.S(seg), hx.B(lit)))
 		}
 		out = append(out, hx.L(hx.S(e.from), hx.S(e.to), hx.Ss(fdcfg.ParseFieldSelector(e.from)), hx.L(to...)))
 	}
@@ -134,6 +140,19 @@ func goOenc(v hx.Sx, out []byte) []byte {
 	return append(out, '}')
 }
 
+func treeValid(v hx.Sx) bool {
+	if hx.IsBytes(v) {
+		return json.Valid(hx.Bytes(v))
+	}
+	for _, f := range hx.Items(v) {
+		it := hx.Items(f)
+		if !json.Valid(hx.Bytes(it[1])) || !treeValid(it[2]) {
+			return false
+		}
+	}
+	return true
+}
+
 func nonEmptyContainer(n *insaneJSON.Node) bool {
 	return (n.IsObject() && len(n.AsFields()) > 0) || (n.IsArray() && len(n.AsArray()) > 0)
 }
@@ -186,6 +205,8 @@ func (g *gen) mkSplunkEv(kind int, enc []byte, es []cpEntry) (ev hx.Sx, ok, alia
 		if !bytes.Equal(goOenc(t, nil), raw) {
 			ok = false
 		}
+		w.Oracle("copy_wf: the leaves of a copied value are JSON documents and its key literals JSON strings (encoding/json.Valid) — hypothesis opt_wf of c19_splunk_envelope_valid",
+			treeValid(t), string(raw))
 		copies = append(copies, t)
 		if !splunkKept(e.to) {
 			continue
@@ -216,12 +237,12 @@ func (g *gen) mkSplunkEv(kind int, enc []byte, es []cpEntry) (ev hx.Sx, ok, alia
 // generators
 // ---------------------------------------------------------------------------------------------
 var splunkFixedCfgs = [][]cpEntry{
-	{{"ts", "time"}, {"service", "fields.service_name"}},                                       // the documented one
-	{{"ts", "time"}, {"lvl", "time"}, {"service", "fields.a"}, {"lvl", "fields.b"}, {"k8s.pod", "fields.c.d"}}, // same target twice, shared parents
-	{{"service", "x"}, {"ts", "x.y"}, {"lvl", "x.y.z"}},                                         // a later target below an earlier one
-	{{"ts", "x.y"}, {"service", "x"}, {"lvl", "x.q"}},                                           // ... and above it
+	{{"ts", "time"}, {"service", "fields.service_name"}},                                                                      // the documented one
+	{{"ts", "time"}, {"lvl", "time"}, {"service", "fields.a"}, {"lvl", "fields.b"}, {"k8s.pod", "fields.c.d"}},                // same target twice, shared parents
+	{{"service", "x"}, {"ts", "x.y"}, {"lvl", "x.y.z"}},                                                                       // a later target below an earlier one
+	{{"ts", "x.y"}, {"service", "x"}, {"lvl", "x.q"}},                                                                         // ... and above it
 	{{"ts", "event"}, {"service", "event.z"}, {"lvl", ""}, {"ts", "."}, {"service", `q\.r`}, {"lvl", "ev\"t"}, {"ts", "é\n"}}, // dropped entries, odd keys
-	{{"", "whole"}, {"ts", "time"}},                                                             // the whole event
+	{{"", "whole"}, {"ts", "time"}},                                                                                           // the whole event
 	{{"k8s", "meta.k8s"}, {"k8s.pod", "pod"}, {"obj.in", "in"}, {"arr", "list"}, {"a\\.b", "ab"}, {"no.such", "never"}},
 	{{"obj", "o"}, {"obj", "p"}, {"ts", "o2.t"}, {"arr", "o2.a"}, {"service", "time"}},
 }
@@ -337,8 +358,9 @@ func (g *gen) emitSplunk(stream string, which int, es []cpEntry, batches [][]hx.
 		return
 	}
 	if alias {
-		w.Count("splunk_copy_cases_reaching_the_alias_finding_left_to_splunk-copy-alias")
-		return
+		// the node-sharing defect (notes/finding-C19-splunk-copy-fields-alias.md) is repaired (fix 7e77f05): these
+		// cases run like every other one
+		w.Count("splunk_copy_cases_with_container_values_or_nested_targets")
 	}
 	c.Do(stream, which, splunkCase(es, batches, script), nontrivial)
 }
@@ -373,6 +395,7 @@ func childPrefetch(which int, cases []hx.Sx) {
 func (g *gen) splunkCopyStreams() {
 	c, r, w := g.c, g.c.R, g.c.W
 	const S = 4
+	oracleW = w
 	for _, es := range splunkFixedCfgs {
 		if !splunkCfgInModel(es) {
 			panic(fmt.Sprintf("c19: fixed splunk configuration outside the model: %v", es))
@@ -519,7 +542,7 @@ func (g *gen) splunkCopyStreams() {
 
 	// ---- S4. the node-sharing finding (only once it is listed): copied values with a non-empty container
 	//          inside, the whole event with nested objects, a target below a copied object, retries
-	if knownListed(splunkAliasFinding) {
+	{ // always on since fix 7e77f05 (was: only once the finding is listed)
 		var cases []hx.Sx
 		for _, d := range []struct {
 			es   []cpEntry
@@ -530,6 +553,8 @@ func (g *gen) splunkCopyStreams() {
 			{[]cpEntry{{"", "whole"}}, []string{`{"a":{"c":1},"b":1}`, `{"b":2}`}, true},
 			{[]cpEntry{{"a", "x"}}, []string{`{"a":[1,[2,3],{"k":"v"}],"b":2}`}, false},
 			{[]cpEntry{{"a", "x"}, {"b", "x.y"}}, []string{`{"a":1,"b":2}`, `{"a":{"k":1},"b":3}`}, true},
+			{[]cpEntry{{"ts", "x.y"}, {"service", "x"}, {"lvl", "x.q"}}, []string{`{"ts":"t","service":{"k":1,"e":{},"l":[]},"lvl":"v"}`}, false},
+			{[]cpEntry{{"service", "x"}, {"lvl", "x.q"}}, []string{`{"service":{"l":[]},"lvl":"v"}`}, false},
 		} {
 			alias, ok := false, true
 			var evs []hx.Sx
